@@ -98,8 +98,8 @@ PrintQ(q) ==
 
 
 ----------------------------------------------------------------------------
-(* C08: the meaning of SELECT queries (result types ANNOTATION, DATA, TEXT   *)
-(* and RESOURCE).                                                            *)
+(* C08: the meaning of SELECT queries (result types ANNOTATION, DATA, TEXT,  *)
+(* RESOURCE, KEY and DATASET).                                               *)
 (* An item is [t, a, b, c]: "ann" a; "data" a = set, b = data; "text"        *)
 (* a = resource, b, c = range; "res" a; "none".  A row is a sequence of      *)
 (* items, one per query level.  Constraints that name identifiers which do   *)
@@ -282,13 +282,33 @@ SatRes(st, env, c) ==
                               ELSE QOk(ResOfAnns(st, {x \in LiveAnns(st) : \E p \in AnnData(st, x) : p[1] = s /\ DataKeyOf(st, p) = k /\ TestValue(DataValOf(st, p), c.op, c.v)}, c.q))
          [] OTHER -> QFail
 
+\* keys (<<set, key>>) of a KEY query and datasets of a DATASET query (single constraints only: no secondary
+\* constraints other than LIMIT are implemented for these result types)
+LiveKeys(st) == UNION {{<<s, k>> : k \in {k \in 1..Len(st.sets[s].keys) : st.sets[s].keys[k].alive}} : s \in LiveSets(st)}
+KeysOfAnn(st, y, meta) ==
+    IF meta THEN {<<l.a, l.b>> : l \in {m \in Range(st.anns[y].leaves) : m.k = "Key"}}
+    ELSE {<<p[1], DataKeyOf(st, p)>> : p \in AnnData(st, y)}
+SatKey(st, env, c) ==
+    LET it == EnvGet(env, c.a)
+    IN CASE c.k = "Set" -> LET s == ResolveSet(st, ById(c.a)) IN IF s = 0 \/ c.q THEN QFail ELSE QOk({p \in LiveKeys(st) : p[1] = s})
+         [] c.k = "Ann" -> LET y == ResolveAnn(st, ById(c.a)) IN IF y = 0 \/ c.rec THEN QFail ELSE QOk(KeysOfAnn(st, y, c.q))
+         [] c.k = "AnnVar" -> IF it.t # "ann" \/ c.rec THEN QFail ELSE QOk(KeysOfAnn(st, it.a, c.q))
+         [] c.k = "DataVar" -> IF it.t # "data" \/ c.q THEN QFail ELSE QOk({<<it.a, DataKeyOf(st, <<it.a, it.b>>)>>})
+         [] OTHER -> QFail
+SatSet(st, env, c) ==
+    IF c.k \in {"Id", "Set"} THEN LET s == ResolveSet(st, ById(c.a)) IN IF s = 0 THEN QFail ELSE QOk({s}) ELSE QFail
+
 ItemsOf(rt, S) == CASE rt = "ANNOTATION" -> {AnnItem(x) : x \in S}
                     [] rt = "DATA" -> {DataItem(p[1], p[2]) : p \in S}
                     [] rt = "TEXT" -> {Item("text", t[1], t[2], t[3]) : t \in S}
+                    [] rt = "KEY" -> {Item("key", p[1], p[2], 0) : p \in S}
+                    [] rt = "DATASET" -> {Item("set", x, 0, 0) : x \in S}
                     [] OTHER -> {Item("res", r, 0, 0) : r \in S}
-AllOf(st, rt) == CASE rt = "ANNOTATION" -> LiveAnns(st) [] rt = "DATA" -> LiveData(st) [] rt = "TEXT" -> AnnotatedSels(st) [] OTHER -> LiveRes(st)
+AllOf(st, rt) == CASE rt = "ANNOTATION" -> LiveAnns(st) [] rt = "DATA" -> LiveData(st) [] rt = "TEXT" -> AnnotatedSels(st)
+                   [] rt = "KEY" -> LiveKeys(st) [] rt = "DATASET" -> LiveSets(st) [] OTHER -> LiveRes(st)
 SatOf(st, env, rt, c) == CASE rt = "ANNOTATION" -> SatAnn(st, env, c) [] rt = "DATA" -> SatData(st, env, c)
-                           [] rt = "TEXT" -> SatText(st, env, c) [] OTHER -> SatRes(st, env, c)
+                           [] rt = "TEXT" -> SatText(st, env, c) [] rt = "KEY" -> SatKey(st, env, c)
+                           [] rt = "DATASET" -> SatSet(st, env, c) [] OTHER -> SatRes(st, env, c)
 
 \* items of one query level (LIMIT constraints are not part of the meaning: see QueryOK)
 LevelItems(st, env, q) ==
